@@ -3,7 +3,7 @@
 Spec: spec/SeqHeaderOps.tla (11.4 decode, encoder design, level acceptance), spec/SeqHeaderFormats.tla (TLC
 choice machine over the formats near each base video format x coding mode x level), spec/SeqHeaderTrace.tla.
 Tables: generated at run time from vc2_data_tables (+ the level table of the tree under test) into a scratch
-module VC2TablesF.tla and bound to the specs' CONSTANTS by the cfg.
+module VC2TablesF.tla and which replaces the placeholder spec/VC2TablesF.tla in the TLC working directory.
 
 G: every completed choice of the TLC machine (-dump; -simulate walks with up to 8 deviating groups) is turned
 into a CodecFeatures; iter_sequence_headers() yields all alternative headers; each is serialised as
@@ -118,3 +118,385 @@ def read_cfg(name, **subst):
         if n != 1:
             raise RuntimeError("cfg %s: constant %s not found" % (name, k))
     return text
+
+
+# ------------------------------------------------------------------------- TLC output -> configurations
+_STATE_SPLIT = re.compile(r"^State \d+:.*$", re.M)
+
+
+def final_states(dump_path, done_stage):
+    """Parse only the completed choices (stage = Done) of a -dump file; also count states per stage."""
+    with open(dump_path) as f:
+        text = f.read()
+    per_stage = {}
+    outs = []
+    hdrs = list(_STATE_SPLIT.finditer(text))
+    for j, h in enumerate(hdrs):
+        block = text[h.end() : hdrs[j + 1].start() if j + 1 < len(hdrs) else len(text)]
+        m = re.search(r"/\\ stage = (\d+)", block)
+        st = int(m.group(1))
+        per_stage[st] = per_stage.get(st, 0) + 1
+        if st == done_stage:
+            outs.append(tlaval.to_jsonable(tlaval.parse_state_block(block)["out"]))
+    return outs, per_stage
+
+
+def sim_finals(sim_dir, done_stage):
+    """Last state of every -simulate behaviour file (this TLC writes `\\* <action>` comment lines between
+    the STATE_n definitions and a ==== footer, which tlaval.iter_dump does not expect: strip them here)."""
+    outs = []
+    for p in sorted(glob.glob(os.path.join(sim_dir, "tr*"))):
+        with open(p) as f:
+            text = f.read()
+        k = text.rfind("STATE_")
+        if k < 0:
+            continue
+        block = text[text.index("\n", k) + 1 :]
+        block = "\n".join(l for l in block.splitlines() if not l.startswith("\\*") and not l.startswith("===="))
+        st = tlaval.parse_state_block(block)
+        if st.get("stage") == done_stage:
+            outs.append(tlaval.to_jsonable(st["out"]))
+    return outs
+
+
+# ------------------------------------------------------------------------------- concretise / project
+def make_codec_features(cfg):
+    from vc2_data_tables import Levels, Profiles, PictureCodingModes, WaveletFilters
+    from vc2_conformance.codec_features import CodecFeatures
+    from vc2_conformance.pseudocode.video_parameters import VideoParameters
+
+    ft = cfg["ft"]
+    vp = VideoParameters((k, cfg["vp"][k]) for k in VP_KEYS)
+    ld = ft["profile"] == 0
+    return CodecFeatures(
+        name="verif",
+        level=Levels(cfg["level"]),
+        profile=Profiles(ft["profile"]),
+        picture_coding_mode=PictureCodingModes(cfg["pcm"]),
+        video_parameters=vp,
+        wavelet_index=WaveletFilters(ft["wavelet_index"]),
+        wavelet_index_ho=WaveletFilters(ft["wavelet_index"]),
+        dwt_depth=ft["dwt_depth"],
+        dwt_depth_ho=ft["dwt_depth_ho"],
+        slices_x=ft["slices_x"],
+        slices_y=ft["slices_y"],
+        fragment_slice_count=0,
+        lossless=not ld,
+        picture_bytes=ft["picture_bytes"] if ld else None,
+        quantization_matrix=None,
+    )
+
+
+_SIMPLE = [
+    # abstract name, SourceParameters key, flag key, has index, value keys (order of SeqHeaderOps!Fields)
+    ("fs", "frame_size", "custom_dimensions_flag", False, ["frame_width", "frame_height"]),
+    ("cd", "color_diff_sampling_format", "custom_color_diff_format_flag", False, ["color_diff_format_index"]),
+    ("sc", "scan_format", "custom_scan_format_flag", False, ["source_sampling"]),
+    ("fr", "frame_rate", "custom_frame_rate_flag", True, ["frame_rate_numer", "frame_rate_denom"]),
+    ("ar", "pixel_aspect_ratio", "custom_pixel_aspect_ratio_flag", True, ["pixel_aspect_ratio_numer", "pixel_aspect_ratio_denom"]),
+    ("ca", "clean_area", "custom_clean_area_flag", False, ["clean_width", "clean_height", "left_offset", "top_offset"]),
+    ("sr", "signal_range", "custom_signal_range_flag", True, ["luma_offset", "luma_excursion", "color_diff_offset", "color_diff_excursion"]),
+]
+_COLOR = [
+    ("cp", "color_primaries", "custom_color_primaries_flag"),
+    ("cm", "color_matrix", "custom_color_matrix_flag"),
+    ("tf", "transfer_function", "custom_transfer_function_flag"),
+]
+ABSENT = {"f": -1, "i": -1, "v": []}
+
+
+def project_header(sh):
+    """SequenceHeader dictionary -> abstract encoding (which fields are present, with which values)."""
+    sp = sh["video_parameters"]
+    e = {}
+    for name, key, flag, has_index, vals in _SIMPLE:
+        d = sp[key]
+        f = int(bool(d[flag]))
+        o = {"f": f, "i": -1, "v": []}
+        if f:
+            if has_index:
+                o["i"] = int(d["index"])
+                if o["i"] == 0:
+                    o["v"] = [int(d[k]) for k in vals]
+            else:
+                o["v"] = [int(d[k]) for k in vals]
+        e[name] = o
+    cs = sp["color_spec"]
+    f = int(bool(cs["custom_color_spec_flag"]))
+    e["cs"] = {"f": f, "i": int(cs["index"]) if f else -1, "v": []}
+    for name, key, flag in _COLOR:
+        if f and e["cs"]["i"] == 0:
+            d = cs[key]
+            ff = int(bool(d[flag]))
+            e[name] = {"f": ff, "i": -1, "v": [int(d["index"])] if ff else []}
+        else:
+            e[name] = dict(ABSENT)
+    return e
+
+
+def validate_header(sh):
+    """serialise [sequence_header, end_of_sequence] with autofill and run the real validator"""
+    import copy
+
+    from vc2_data_tables import ParseCodes
+    from vc2_conformance.bitstream import Stream, Sequence, DataUnit, ParseInfo, autofill_and_serialise_stream
+    from vc2_conformance.pseudocode.state import State
+    from vc2_conformance.decoder import init_io, parse_stream
+
+    seq = Sequence(
+        data_units=[
+            DataUnit(parse_info=ParseInfo(parse_code=ParseCodes.sequence_header), sequence_header=copy.deepcopy(sh)),
+            DataUnit(parse_info=ParseInfo(parse_code=ParseCodes.end_of_sequence)),
+        ]
+    )
+    f = io.BytesIO()
+    autofill_and_serialise_stream(f, Stream(sequences=[seq]))
+    f.seek(0)
+    st = State()
+    init_io(st, f)
+    r = {"ok": True, "exc": "", "key": "", "dec": {}, "dpcm": -1, "ver": -1, "nbytes": len(f.getvalue())}
+    try:
+        parse_stream(st)
+    except Exception as ex:  # noqa  -- any exception is "not accepted"
+        r["ok"] = False
+        r["exc"] = type(ex).__name__
+        r["key"] = str(getattr(ex, "key", ""))
+        r["sig"] = common.exc_signature(ex)
+    r["ver"] = int(st.get("major_version", -1))
+    if r["ok"]:
+        vp = st["video_parameters"]
+        r["dec"] = dict((k, (bool(vp[k]) if k == "top_field_first" else int(vp[k]))) for k in VP_KEYS)
+        r["dpcm"] = int(st["picture_coding_mode"])
+    return r
+
+
+def exec_case(job):
+    """One configuration -> one trace event (all alternative headers with verdicts)."""
+    tid, cfg, full = job
+    from vc2_conformance.encoder.sequence_header import iter_sequence_headers
+
+    ev = {"tid": tid, "ev": "cfg", "req": cfg["vp"], "pcm": cfg["pcm"], "level": cfg["level"], "ft": cfg["ft"], "full": bool(full), "hs": [], "gen_exc": ""}
+    try:
+        headers = list(iter_sequence_headers(make_codec_features(cfg)))
+    except Exception as ex:  # noqa
+        ev["gen_exc"] = common.exc_signature(ex)
+        headers = []
+    for sh in headers:
+        h = {"b": int(sh["base_video_format"]), "e": project_header(sh)}
+        h.update(validate_header(sh))
+        ev["hs"].append(h)
+    return ev
+
+
+# --------------------------------------------------------------------------------- trace validation
+_BAD = re.compile(r'<<\s*"BAD",\s*"((?:[^"\\]|\\.)*)"\s*>>', re.S)
+
+
+def validate_chunk(arg):
+    """Like trace.validate but tolerant of TLC wrapping a long PrintT value over several lines."""
+    import json
+
+    module, records, cfg, extra = arg
+    wd = tlc.mkscratch("trace")
+    path = os.path.join(wd, "trace.ndjson")
+    with open(path, "w") as f:
+        for r in records:
+            f.write(json.dumps(r, separators=(",", ":")))
+            f.write("\n")
+    res = tlc.run(module, cfg, workers=1, env={"TRACE_FILE": path}, timeout=3000, coverage=False, extra_files=extra, heap="3g")
+    got = _BAD.findall(res.out)
+    if not got:
+        raise tlc.TLCError("trace spec %s printed no verdict line\n%s" % (module, res.out[-2000:]))
+    bad = json.loads(tlaval.parse('"%s"' % got[-1]))
+    if isinstance(bad, dict):
+        bad = [bad[k] for k in sorted(bad, key=lambda x: int(x))]
+    if res.distinct != len(records) + 1:
+        raise tlc.TLCError("trace spec %s consumed %d of %d lines" % (module, res.distinct - 1, len(records)))
+    return bad, res
+
+
+def validate_parallel(module, records, cfg, extra, nchunks):
+    """Split the log into chunks validated by concurrent TLC processes (each strictly sequential).
+    `line` in the verdicts is made global again."""
+    from concurrent.futures import ThreadPoolExecutor
+
+    n = len(records)
+    nchunks = max(1, min(nchunks, n // 50 or 1))
+    size = (n + nchunks - 1) // nchunks
+    chunks = [(i, records[i : i + size]) for i in range(0, n, size)]
+    with ThreadPoolExecutor(len(chunks)) as ex:
+        outs = list(ex.map(lambda c: validate_chunk((module, c[1], cfg, extra)), chunks))
+    bad = []
+    for (off, _), (b, _) in zip(chunks, outs):
+        for x in b:
+            x["line"] += off
+            bad.append(x)
+    return bad, [r for _, r in outs]
+
+
+TRACE_CFG = "SPECIFICATION TraceSpec\nINVARIANT Report\nPOSTCONDITION AllConsumed\nCHECK_DEADLOCK FALSE\n"
+DONE = 12
+
+
+def first_diff(a, b):
+    for k in VP_KEYS:
+        if a.get(k) != b.get(k):
+            return k
+    return "?"
+
+
+def judge(ctx, events, tables, nchunks, report=True):
+    """TLC judges the recorded events; returns (alarms, disagreements by clause, tlc results)."""
+    bad, ress = validate_parallel("SeqHeaderTrace", events, TRACE_CFG, [tables], nchunks)
+    alarms = []
+    dis = {}
+    for b in bad:
+        ev = events[b["line"] - 1]
+        if not b["alarm"]:
+            dis[b["clause"]] = dis.get(b["clause"], 0) + 1
+            continue
+        h = ev["hs"][b["h"] - 1]
+        if b["clause"] in ("Rejected", "RejectedLevelVersion"):
+            detail = "%s:%s" % (h["exc"], h["key"]) if h["key"] else h.get("sig", h["exc"])
+            what = "level %d, base %d: validator rejected a generated sequence header with %s (%s); requested %s" % (ev["level"], h["b"], h["exc"], h["key"], ev["req"])
+        elif b["clause"] == "WrongParameters":
+            k = first_diff(ev["req"], h["dec"])
+            detail = k
+            what = "level %d, base %d: header decodes to %s=%r, requested %r; encoding %s" % (ev["level"], h["b"], k, h["dec"].get(k), ev["req"].get(k), h["e"])
+        else:
+            detail = "pcm"
+            what = "decoded picture coding mode %r, requested %r" % (h["dpcm"], ev["pcm"])
+        alarms.append(("C15|%s|%s" % (b["clause"], detail), what, {"cfg": {"vp": ev["req"], "pcm": ev["pcm"], "level": ev["level"], "ft": ev["ft"]}, "header": b["h"]}))
+    return alarms, dis, ress
+
+
+# ------------------------------------------------------------------------------------------ self-tests
+def selftest_binding(cfgs, tables):
+    """(1) a broken encoder (in-process monkeypatch, restored) must raise the alarm through the same pipeline;
+    (2) a corrupted recorded field must be rejected by the trace spec."""
+    import vc2_conformance.encoder.sequence_header as enc
+
+    victims = [c for c in cfgs if c["f"]["sc"] == 1 and c["level"] == 0][:6]
+    if not victims:
+        raise RuntimeError("binding self-test: no configuration with a changed scan format")
+    orig = enc.iter_scan_format_options
+
+    def broken(base_video_parameters, video_parameters, level_constraints_dict):
+        yield enc.ScanFormat(custom_scan_format_flag=False)  # never codes the scan format
+
+    enc.iter_scan_format_options = broken
+    try:
+        evs = [exec_case((i + 1, c, False)) for i, c in enumerate(victims)]
+    finally:
+        enc.iter_scan_format_options = orig
+    bad, _ = validate_chunk(("SeqHeaderTrace", evs, TRACE_CFG, [tables]))
+    hit1 = sum(1 for b in bad if b["alarm"] and b["clause"] == "WrongParameters")
+    if hit1 == 0:
+        raise RuntimeError("binding self-test failed: an encoder that never codes the scan format was not flagged")
+    good = exec_case((1, victims[0], True))
+    if not good["hs"] or not all(h["ok"] for h in good["hs"]):
+        raise RuntimeError("binding self-test: reference configuration not accepted")
+    import copy
+
+    corrupt = copy.deepcopy(good)
+    corrupt["hs"][0]["dec"]["clean_width"] += 1
+    corrupt2 = copy.deepcopy(good)
+    corrupt2["tid"] = 2
+    corrupt2["hs"][-1]["e"]["fr"] = {"f": 1, "i": 2, "v": []}
+    bad, _ = validate_chunk(("SeqHeaderTrace", [corrupt, corrupt2], TRACE_CFG, [tables]))
+    c1 = [b for b in bad if b["line"] == 1 and b["h"] == 1 and b["clause"] == "WrongParameters" and b["alarm"]]
+    c2 = [b for b in bad if b["line"] == 2 and b["clause"] in ("SpecDecode", "SpecOption") and not b["alarm"]]
+    if not c1 or not c2:
+        raise RuntimeError("trace binding self-test failed: corrupted fields accepted (%r)" % (bad,))
+    return {"mutant": "iter_scan_format_options never codes the scan format (in-process, restored)", "headers_flagging_it": hit1, "corrupted_fields": "decoded clean_width+1 -> WrongParameters (alarm); recorded frame-rate option changed -> %s (logged)" % c2[0]["clause"]}
+
+
+# ------------------------------------------------------------------------------------------------ run
+def run(ctx):
+    import random
+
+    scratch = tlc.mkscratch("gen")
+    tables = gen_tables(scratch)
+    mp = ctx.pick(1, 2)
+    res = tlc.run("SeqHeaderFormats", read_cfg("SeqHeaderFormats.cfg", MaxPerturb=mp), dump=True, coverage=False, extra_files=[tables], timeout=3000)
+    cfgs, per_stage = final_states(res.dump_path, DONE)
+    dims = ["Init", "ChooseBase", "ChooseSz", "ChooseCd", "ChooseSc", "ChooseFr", "ChooseAr", "ChooseCa", "ChooseSr", "ChooseCo", "ChoosePcm", "ChooseCfg"]
+    res.coverage = dict((dims[s - 1], [n, n]) for s, n in sorted(per_stage.items()) if s >= 2)  # states produced per action (counted from the dump)
+    ctx.add_tlc(res, "exhaustive format machine", {"MaxPerturb": mp, "RealLevels": True, "bases": 23})
+    if len(cfgs) != per_stage.get(DONE):
+        raise RuntimeError("dump parse lost configurations")
+    # the design-level deviation (known finding) must be reachable in the model, otherwise the named deviation is dead
+    dev = tlc.run("SeqHeaderFormats", read_cfg("SeqHeaderFormats.cfg", MaxPerturb=0) + "INVARIANT NoLevelVersionDeviation\n", coverage=False, extra_files=[tables], allow_invariant_violation=True, timeout=600)
+    ctx.add_tlc(dev, "deviation reachability (MaxPerturb=0, invariant NoLevelVersionDeviation expected to fail on the real table)", {"MaxPerturb": 0})
+    rnd = random.Random(ctx.seed)
+    singles = [c for c in cfgs if sum(1 for k, v in c["f"].items() if k not in ("base", "pcm") and v) <= 1]
+    doubles = [c for c in cfgs if c not in singles] if mp > 1 else []
+    if doubles:
+        rnd.shuffle(doubles)
+        doubles = doubles[:6000]
+    nsim = ctx.pick(300, 3000)
+    sim = tlc.run("SeqHeaderFormats", read_cfg("SeqHeaderFormats.cfg", MaxPerturb=8), simulate=nsim, depth=DONE + 1, seed=ctx.seed, workers=1, coverage=False, extra_files=[tables], timeout=3000)
+    walks = sim_finals(sim.sim_dir, DONE)
+    if len(walks) < nsim // 2:
+        raise RuntimeError("simulation produced only %d complete configurations" % len(walks))
+    todo = singles + doubles + walks
+    frac = ctx.pick(0.15, 0.5)
+    jobs = [(i + 1, c, rnd.random() < frac) for i, c in enumerate(todo)]
+    events = common.pmap(exec_case, jobs)
+    alarms, dis, ress = judge(ctx, events, tables, 12)
+    for r in ress:
+        ctx.tlc_runs.append(dict(r.summary(), name="trace validation chunk (SeqHeaderTrace)"))
+    ctx.coverage["states"] += sum(r.distinct for r in ress)
+    ctx.coverage["transitions"] += sum(r.generated for r in ress)
+    for sig, what, case in alarms:
+        ctx.violation(sig, what, case)
+    nh = sum(len(e["hs"]) for e in events)
+    nok = sum(1 for e in events for h in e["hs"] if h["ok"])
+    if nok == 0 or nh == 0:
+        raise RuntimeError("vacuous: no header was generated and accepted")
+    empty = sum(1 for e in events if not e["hs"])
+    genexc = sorted(set(e["gen_exc"] for e in events if e["gen_exc"]))
+    st = selftest_binding(cfgs, tables)
+    distinct = len(set(repr((e["req"], e["pcm"], e["level"], h["b"], h["e"])) for e in events for h in e["hs"] if h["e"] != events[0]["hs"][0]["e"] or True))
+    nontrivial = len(set(repr((e["req"], e["pcm"], e["level"], h["b"], h["e"])) for e in events for h in e["hs"] if any(h["e"][g]["f"] == 1 for g in h["e"])))
+    ctx.coverage.update(
+        {
+            "traces_validated_against_impl": len(events),
+            "evaluations": nh,
+            "distinct_nontrivial": nontrivial,
+            "rule": "one evaluation = one generated sequence header serialised, validated by the real validator and judged by SeqHeaderTrace; configurations = completed choices of SeqHeaderFormats.tla (all with <= 1 deviating group%s, plus %d simulate walks with up to 8 deviating groups); distinct = (requested format, coding mode, level, base format, encoding); non-trivial = the encoding sets at least one custom flag" % (", a seeded sample of those with 2" if mp > 1 else "", len(walks)),
+            "exhaustive": True,
+            "exhaustive_note": "the TLC model is explored completely for MaxPerturb=%d; all its configurations with <= 1 deviating group are executed against the implementation%s" % (mp, "; of those with 2 a seeded sample of %d" % len(doubles) if mp > 1 else ""),
+            "configurations": {"single": len(singles), "double": len(doubles), "walks": len(walks)},
+            "headers": nh,
+            "headers_accepted": nok,
+            "distinct_headers": distinct,
+            "configurations_without_header": empty,
+            "encoder_exceptions": genexc,
+            "levels_exercised": sorted(set(e["level"] for e in events if e["hs"])),
+            "bases_used_by_headers": sorted(set(h["b"] for e in events for h in e["hs"])),
+            "fully_cross_checked_configurations": sum(1 for j in jobs if j[2]),
+            "spec_disagreements": sum(dis.values()),
+            "spec_disagreements_by_clause": dis,
+            "model_deviation_reachable": dev.invariant_violated == "NoLevelVersionDeviation",
+            "binding_selftest": st,
+            "samples": [
+                {"requested": events[i]["req"], "pcm": events[i]["pcm"], "level": events[i]["level"], "headers": len(events[i]["hs"]), "first_header": events[i]["hs"][0] if events[i]["hs"] else None}
+                for i in (0, len(events) // 3, len(events) - 1)
+            ],
+        }
+    )
+    ctx.assumptions += [
+        "formats are regular (SeqHeaderOps!Regular: dimensions divisible by the subsampling / field factors, clean area inside the frame)",
+        "the header is validated as the two-unit sequence [sequence_header, end_of_sequence] serialised with autofill (major_version AUTO)",
+        "for a real level the non-video codec features are the smallest values its table column allows (SeqHeaderFormats!Feat)",
+        "TLC -coverage is not used (it does not terminate on the generated tables module); per-action counts are the number of dumped states per stage",
+    ]
+
+
+def replay(case):
+    scratch = tlc.mkscratch("gen")
+    tables = gen_tables(scratch)
+    ev = exec_case((1, case["cfg"], True))
+    bad, _ = validate_chunk(("SeqHeaderTrace", [ev], TRACE_CFG, [tables]))
+    return {"violations": [b for b in bad if b["alarm"]], "disagreements": [b for b in bad if not b["alarm"]], "headers": [{"b": h["b"], "ok": h["ok"], "exc": h["exc"], "key": h["key"], "e": h["e"]} for h in ev["hs"]]}
